@@ -6,6 +6,7 @@ package main
 import (
 	"fmt"
 	"go/types"
+	"regexp"
 	"sort"
 	"strings"
 
@@ -68,6 +69,7 @@ type Enc struct {
 	resultTerms   []Value
 	finalGuard    Term
 	inlineN       int
+	quantCands    bool
 	callOrd       map[string]int
 	callOrdSite   map[ssa.Instruction]map[string]int
 	callSites     map[string][]ssa.Instruction
@@ -306,7 +308,7 @@ func (e *Enc) strLit(v string) Term {
 	e.strLits[v] = n
 	e.pre(fmt.Sprintf("(declare-const %s Str)", n))
 	e.pre(fmt.Sprintf("(assert (= (strlen %s) %s))", n, i64(int64(len(v))).S))
-	if len(v) <= 16 {
+	if len(v) <= 64 {
 		for i := 0; i < len(v); i++ {
 			e.pre(fmt.Sprintf("(assert (= (strat %s %s) %s))", n, i64(int64(i)).S, bvConst(uint64(v[i]), 8).S))
 		}
@@ -331,8 +333,12 @@ func (e *Enc) finishPreamble() []string {
 	return out
 }
 
+var byteWordRe = regexp.MustCompile(`\bbyte\b`)
+var runeWordRe = regexp.MustCompile(`\brune\b`)
+
 func (e *Enc) typeTag(t types.Type) Term {
 	key := types.TypeString(t, nil)
+	key = runeWordRe.ReplaceAllString(byteWordRe.ReplaceAllString(key, "uint8"), "int32")
 	n, ok := e.typeTags[key]
 	if !ok {
 		n = len(e.typeTags) + 1
